@@ -297,6 +297,21 @@ func (s *Sched) PassTransparent(name string) error {
 	return nil
 }
 
+// PassAllTransparent lets the thread run past every transparent yield it is parked at, including the
+// initial one of a thread that has not started yet, without granting a real operation.
+func (s *Sched) PassAllTransparent(name string) error {
+	t := s.Thread(name)
+	if t == nil {
+		return nil
+	}
+	for !t.Exited() && t.pending.Transparent {
+		if err := s.grantWait(t); err != nil {
+			return err
+		}
+	}
+	return nil
+}
+
 // RunToQuiescence steps runnable threads round-robin (creation order) until none is runnable or
 // max steps were taken.  It returns the number of steps and whether everything exited.
 func (s *Sched) RunToQuiescence(max int, skip func(name string) bool) (int, error) {
